@@ -375,10 +375,24 @@ def analyse_function(fn):
     late_write = [e for e in ev if e[0] == "write" and e[1] > row_line]
     pre_write = [e for e in ev if e[0] == "write" and e[1] < row_line]
     late_check = [e for e in ev if e[0] in ("check", "index", "eg", "precond") and e[1] > first_write]
+    # a statement after the row write that uses no argument of the call (only `net`, `index` and locals built
+    # BEFORE the write, e.g. a geodata frame validated up front) cannot fail on the caller's input: "prepared"
+    pnames = {p for p, _ in params} - {"index"}
+    prepared = []
+    for st in fn.body:
+        if st.lineno > row_line and not isinstance(st, ast.Return):
+            used = {n.id for n in ast.walk(st) if isinstance(n, ast.Name)}
+            if not (used & pnames) and "kwargs" not in used:
+                prepared.append((st.lineno, st.end_lineno))
+
+    def is_prepared(line):
+        return any(a <= line <= b for a, b in prepared)
+    late_write = [e for e in late_write if not is_prepared(e[1])]
+    late_check = [e for e in late_check if not is_prepared(e[1])]
     silent = [e for e in ev if e[0] == "return_other"]
     late_code = []
     for st in fn.body:
-        if st.lineno <= row_line or isinstance(st, ast.Return):
+        if st.lineno <= row_line or isinstance(st, ast.Return) or is_prepared(st.lineno):
             continue
         if isinstance(st, ast.If) and not st.orelse and all(
                 isinstance(b, ast.Expr) and isinstance(b.value, ast.Call) and (_call_name(b.value) or "").startswith("logger.")
